@@ -57,7 +57,7 @@ class GeneralizedCrowding(Selection):
                 population[i * 2] = self._return_most_fit(child_2, parent_1)
                 population[i * 2 + 1] = self._return_most_fit(child_1, parent_2)
 
-        return population
+        return population[:target_population_size]
 
     @staticmethod
     @abstractmethod
